@@ -9,12 +9,14 @@ CONSTANTS
   ClassLevelOption = FALSE
   StoreBeforeValidate = FALSE
   ReorderStoresPlainKeys = FALSE
+  RefusedUnlinksFirst = FALSE
   Emit = TRUE
   EmitOff = 0
 SPECIFICATION Spec
 INVARIANT TypeOK
 INVARIANT DumpTotal
 INVARIANT KeysFold
+INVARIANT KeysListed
 INVARIANT WidthTable
 INVARIANT DumpExplains
 INVARIANT RecordsRoundTrip
@@ -25,4 +27,5 @@ INVARIANT SingleBlanks
 PROPERTY LoadIsIdentity
 PROPERTY EditIsLocal
 PROPERTY OtherIsOther
+PROPERTY RefusedIsAtomic
 CHECK_DEADLOCK FALSE
